@@ -213,7 +213,15 @@ def rule_uptime_keys(ctx):
     C19.rule_R4(R.Retag(ctx, "C19."))
 
 
+def rule_dispatch_identity(ctx):
+    """R1: every packet of a connection reaches the worker that holds its state: the dispatch hashes look at the connection identity only (C18.R2)"""
+    from ..engine import report as R
+    from . import C18
+    C18.rule_R2(R.Retag(ctx, "C18."))
+
+
 def run(ctx):
+    rule_dispatch_identity(ctx)
     rule_uptime_keys(ctx)
     rule_R1(ctx)
     rule_workers(ctx)
